@@ -427,7 +427,7 @@ pub fn property() -> Property {
             PropSub {
                 name: "names",
                 strategy: names_strategy,
-                cases: |t| t.pick(80_000, 4_000_000),
+                cases: |t| t.pick(80_000, 2_500_000),
                 run: run_names,
                 floors: &[
                     ("names-valid", 0.2),
